@@ -397,7 +397,9 @@ func c01Specs() []leafSpec {
 		specs = append(specs, leafSpec{"regex " + ps.Pat, []gen.Rule{{Name: "regex", Val: lit(gen.Q(ps.Pat))}}, "string", gen.Q(ps.Match[0]), vals})
 	}
 	for _, p := range []int{1, 2, 3} {
-		vals := []string{"1.5", "1.25", "1.125", "1.1255", "-0.5", "2.50", "2.500", "0.0", "3.10", "3.1000"}
+		// incl. values of other JSON kinds: behind a type reference or inside an or rule-set nothing but the rule itself
+		// stands between them and acceptance
+		vals := []string{"1.5", "1.25", "1.125", "1.1255", "-0.5", "2.50", "2.500", "0.0", "3.10", "3.1000", `"abc"`, `"1.5"`, `"1.125"`, "true", "null", `""`}
 		specs = append(specs, leafSpec{fmt.Sprintf("precision %d", p), []gen.Rule{{Name: "precision", Val: lit(strconv.Itoa(p))}}, "decimal", "7.5", vals})
 	}
 	fm := map[string][2][]string{"email": {gen.ValidEmails, gen.InvalidEmails}, "uri": {gen.ValidURIs, gen.InvalidURIs}, "uuid": {gen.ValidUUIDs, gen.InvalidUUIDs},
